@@ -497,6 +497,9 @@ func (x *arun) run(r *h.Run, e *appEnv, mon *dl.Monitor) {
 		// the last renewal was not witnessed (yet): bound it by now
 		ub = dl.Now() + K
 	}
+	if n := dl.Now(); ub < n {
+		ub = n // an unanswered request already consumed the window: measure from now
+	}
 	c0 := dl.NewControl(ub)
 	got := waitEOF(ub + slack + int64(maxCtlLate))
 	l, fired := c0.Late()
@@ -582,6 +585,7 @@ func (x *arun) run(r *h.Run, e *appEnv, mon *dl.Monitor) {
 		late()
 		return
 	}
+	l, fired = c0.Late()
 	l5, f5 := c5.Late()
 	l10, f10 := c10.Late()
 	x.mu.Lock()
